@@ -63,6 +63,11 @@ CLAIMED = {
    note="Intra-procedural dependence for the interval arguments (a hand-off of the whole metadata struct to a helper counts as use); control dependence with error-only exits pruned.",
    technique="static analysis: control-dependence rules, errors-returned path rule, intra-procedural dependence slices, package purity query over SSA",
    ref="DESIGN.md §3 C13"),
+ "C14": dict(
+   text="Static analysis of structural necessary conditions of fault injection: the BaseURL format written into the MPD equals the prefix the request parser tests plus number and slash, and the parser strips exactly that prefix; every loss state the pattern parser can store has its own handler arm with the documented effect (served / 404 / sleep 2 s then served / sleep 10 s then 503); divisors and indices of the cycle arithmetic are proven safe for every request (E3-A/B) on top of validated-field facts (cycle >= 1, rsq >= 0, code 400..599); the cycle-start instant handed to the timeline generator depends on the availability start time, the hit index on the start number, and the hit test uses no value carried over from the previous pattern. Which request of a cycle is hit and StateAt's interval boundaries are not decided.",
+   note="Constants resolved through go/types; E3 assumptions as for C08; intra-procedural dependence for the hit test.",
+   technique="static analysis: constant agreement (writer/reader), switch exhaustiveness over stored constants, interval/guard rules, dependence slices, loop-carried value query over SSA",
+   ref="DESIGN.md §3 C14"),
  "C18": dict(
    text="Static analysis (SSA control-flow walk + range/guard analysis) of two structural necessary conditions: every callback/read error is returned on all non-nil paths, and the box-walk cursor provably advances and cannot wrap. Decides those clauses for every input and read schedule; does not decide output equality.",
    note="Trusts go/types, go/ssa; VTA call graph for reachability; integer overflow only modelled where a rule says so.",
